@@ -58,11 +58,51 @@ BootF(F, entry) == [Boot0(entry) EXCEPT !.modcache = {F[entry].qn}]
 DigitOf(c) == CASE c = "0" -> 0 [] c = "1" -> 1 [] c = "2" -> 2 [] c = "3" -> 3 [] c = "4" -> 4
                 [] c = "5" -> 5 [] c = "6" -> 6 [] c = "7" -> 7 [] c = "8" -> 8 [] c = "9" -> 9
                 [] OTHER -> -1
-IsDigits(s) == Len(s) \in 1..9 /\ \A i \in 1..Len(s) : DigitOf(SubSeq(s, i, i)) >= 0
+RECURSIVE LeqDec(_, _, _)
+LeqDec(s, u, i) == IF i > Len(s) THEN TRUE            \* same length: s <= u as decimal numerals
+                   ELSE IF DigitOf(SubSeq(s, i, i)) < DigitOf(SubSeq(u, i, i)) THEN TRUE
+                   ELSE IF DigitOf(SubSeq(s, i, i)) > DigitOf(SubSeq(u, i, i)) THEN FALSE ELSE LeqDec(s, u, i + 1)
+IsDigits(s) == /\ Len(s) \in 1..10 /\ \A i \in 1..Len(s) : DigitOf(SubSeq(s, i, i)) >= 0
+               /\ (Len(s) = 10 => LeqDec(s, "2147483647", 1))
 RECURSIVE DigitsVal(_, _)
 DigitsVal(s, n) == IF n = 0 THEN 0 ELSE DigitsVal(s, n - 1) * 10 + DigitOf(SubSeq(s, n, n))
 IsLit(s) == IF Len(s) > 1 /\ SubSeq(s, 1, 1) = "-" THEN IsDigits(SubSeq(s, 2, Len(s))) ELSE IsDigits(s)
 LitVal(s) == IF SubSeq(s, 1, 1) = "-" THEN 0 - DigitsVal(SubSeq(s, 2, Len(s)), Len(s) - 1) ELSE DigitsVal(s, Len(s))
+
+-----------------------------------------------------------------------------
+(* the other numeric kinds (Primitive::BigInt / Byte / Float): values of MSNum's exact tower, boxed as          *)
+(* [t |-> "num", n |-> [kind, z] | [kind |-> "float", f]].  The machine's own VInt stays a TLC integer; a binary *)
+(* operator with a boxed operand is MSNum!Arith on the promoted kinds, and a result of kind int / bool comes back *)
+(* as VInt / VBool.                                                                                              *)
+N == INSTANCE MSNum
+VNum(x) == [t |-> "num", n |-> x]
+SmallZ(v) == IF v = (0 - 2147483647) - 1 THEN [neg |-> TRUE, mag |-> <<3648, 4748, 21>>]
+             ELSE [neg |-> v < 0, mag |-> N!NatOfSmall(IF v < 0 THEN 0 - v ELSE v)]
+ZSmall(z) == LET l(i) == IF i <= Len(z.mag) THEN z.mag[i] ELSE 0 IN
+             IF z.neg THEN ((0 - l(3) * 100000000) - l(2) * 10000) - l(1) ELSE (l(3) * 100000000 + l(2) * 10000) + l(1)
+ToNum(v) == IF v.t = "int" THEN N!VI("int", SmallZ(v.v)) ELSE v.n
+OfNum(x) == IF x.kind = "int" THEN VInt(ZSmall(x.z)) ELSE IF x.kind = "bool" THEN VBool(x.b) ELSE VNum(x)
+NumOp(op) == IF op = "^" THEN "xor" ELSE IF op = "=" THEN "==" ELSE op
+NumBin(op, l, r) == N!Arith(NumOp(op), ToNum(l), ToNum(r))       \* [ok, oom, v | why]
+AllDigits(s) == Len(s) >= 1 /\ \A i \in 1..Len(s) : DigitOf(SubSeq(s, i, i)) >= 0
+(* make_float "12.5": [digits] . [digits]; other spellings are not modelled *)
+DotAt(s) == LET hits == {k \in 1..Len(s) : SubSeq(s, k, k) = "."} IN IF Cardinality(hits) = 1 THEN CHOOSE k \in hits : TRUE ELSE 0
+RECURSIVE P10(_)
+P10(n) == IF n = 0 THEN <<1>> ELSE N!NatMulSmall(P10(n - 1), 10)
+FloatOfText(s) == LET d == DotAt(s)
+                      ip == IF d = 0 THEN s ELSE SubSeq(s, 1, d - 1)
+                      fp == IF d = 0 THEN "" ELSE SubSeq(s, d + 1, Len(s)) IN
+                  IF ~AllDigits(ip \o fp) \/ Len(ip \o fp) > 30 THEN [ok |-> FALSE]
+                  ELSE N!RoundRat(FALSE, N!NatOfDec(ip \o fp), P10(Len(fp)), 0)
+(* Display of a byte: 0b followed by its binary digits without leading zeros *)
+RECURSIVE BinText(_, _, _)
+BinText(bs, k, started) == IF k = 0 THEN (IF started THEN "" ELSE "0")
+                           ELSE IF bs[k] = 1 THEN "1" \o BinText(bs, k - 1, TRUE)
+                           ELSE (IF started THEN "0" ELSE "") \o BinText(bs, k - 1, started)
+NumText(x) == CASE x.kind = "byte" -> "0b" \o BinText(N!NatBits(x.z.mag, 8), 8, FALSE)
+                [] x.kind = "float" -> "?"                     \* the shortest round-trip decimal is not modelled: never compared
+                [] OTHER -> N!DecOfInt(x.z)
+IsFloatV(v) == v.t = "num" /\ v.n.kind = "float"
 
 -----------------------------------------------------------------------------
 TopA(m) == m.acts[Len(m.acts)]
@@ -158,7 +198,14 @@ Enter(m, a0, fi, args, cb) ==       \* a0 = the caller with its operands already
 Goto(m, a, off) == SetTop(m, [a EXCEPT !.ip = @ + off])
 PushScope(m, a) == [SetTop(m, Adv([a EXCEPT !.sp = @ + 1])) EXCEPT !.frames = Append(@, BlkFrame)]
 
-ShowV(m, v) == Show(Deref(m, v), HeapOf(m), FALSE)
+(* Display: MSLang!Show, extended to boxed numbers at any depth (a float is never compared: HasFn) *)
+RECURSIVE ShowD(_, _, _), ShowDs(_, _, _, _)
+ShowD(m, d, nested) == IF d.t = "num" THEN NumText(d.n)
+                       ELSE IF d.t = "list" THEN "[" \o ShowDs(m, m.lists[d.id], 1, "") \o "]"
+                       ELSE Show(d, HeapOf(m), nested)
+ShowDs(m, xs, i, acc) == IF i > Len(xs) THEN acc
+                         ELSE ShowDs(m, xs, i + 1, acc \o (IF i > 1 THEN ", " ELSE "") \o ShowD(m, Deref(m, xs[i]), TRUE))
+ShowV(m, v) == ShowD(m, Deref(m, v), FALSE)
 RECURSIVE JoinShown(_, _, _, _)
 JoinShown(m, xs, i, acc) == IF i > Len(xs) THEN acc
                             ELSE JoinShown(m, xs, i + 1, acc \o (IF i > 1 THEN ", " ELSE "") \o ShowV(m, xs[i]))
@@ -166,7 +213,8 @@ JoinShown(m, xs, i, acc) == IF i > Len(xs) THEN acc
 BinResult(m, op, l, r) == BinOp(IF op = "=" THEN "==" ELSE op, Deref(m, l), Deref(m, r), HeapOf(m))
 
 (* the hook's name of the Primitive variant of a printed scalar ("" = not compared) *)
-KindName(v) == CASE v.t = "int" -> "Int" [] v.t = "bool" -> "Bool" [] v.t = "str" -> "Str" [] OTHER -> ""
+KindName(v) == CASE v.t = "int" -> "Int" [] v.t = "bool" -> "Bool" [] v.t = "str" -> "Str"
+                [] v.t = "num" -> (CASE v.n.kind = "bigint" -> "BigInt" [] v.n.kind = "byte" -> "Byte" [] OTHER -> "Float") [] OTHER -> ""
 (* built-in methods the machine runs through MSLang!Builtin (those that do not call back into bytecode) *)
 BuiltinNames == {"len", "push", "remove", "reverse", "clear", "clone", "join", "index_of", "is_closure", "map", "filter",
                  "substring", "delete", "insert", "parse_int_radix",
@@ -175,9 +223,16 @@ VoidBuiltins == {"push", "reverse", "clear"}
 (* a position inside a list whose order the model does not prescribe (keys / values / pairs of a map): the value *)
 (* may be moved around and compared with nil, but never shown or computed with                                   *)
 Fuzzy(v) == "fz" \in DOMAIN v
-RECURSIVE HasFn(_, _, _)
-HasFn(m, v, fuel) == LET d == Deref(m, v) IN
-                     Fuzzy(d) \/ d.t \in {"fn", "obj", "bfn", "mod", "map"} \/ (d.t = "list" /\ d.id \in m.unord) \/ (d.t = "list" /\ fuel > 0 /\ \E k \in 1..Len(m.lists[d.id]) : HasFn(m, m.lists[d.id][k], fuel - 1))
+(* values whose Display the model does not prescribe: Opaque = functions, objects, modules, maps, unordered lists (a program   *)
+(* printing one is not judged); HasFloat = a float somewhere inside (printed, but its text - the shortest round-trip decimal -  *)
+(* is not compared); HasFn = either: the top-of-stack text of such a value is not compared                                      *)
+RECURSIVE Opaque(_, _, _), HasFloat(_, _, _)
+Opaque(m, v, fuel) == LET d == Deref(m, v) IN
+                      Fuzzy(d) \/ d.t \in {"fn", "obj", "bfn", "mod", "map"} \/ (d.t = "list" /\ d.id \in m.unord)
+                      \/ (d.t = "list" /\ (fuel = 0 \/ \E k \in 1..Len(m.lists[d.id]) : Opaque(m, m.lists[d.id][k], fuel - 1)))
+HasFloat(m, v, fuel) == LET d == Deref(m, v) IN
+                        IsFloatV(d) \/ (d.t = "list" /\ (fuel = 0 \/ \E k \in 1..Len(m.lists[d.id]) : HasFloat(m, m.lists[d.id][k], fuel - 1)))
+HasFn(m, v, fuel) == Opaque(m, v, fuel) \/ HasFloat(m, v, fuel)
 
 (* one instruction *)
 Exec1(F, m) ==
@@ -189,6 +244,13 @@ Exec1(F, m) ==
         a1 == IF Len(ar) >= 1 THEN ar[1] ELSE "" IN
     CASE op = "make_int" ->
             IF IsLit(a1) THEN SetTop(m, Adv(PushV(a, VInt(LitVal(a1))))) ELSE OomM(m, "make_int " \o a1)
+      [] op = "make_bigint" ->
+            IF AllDigits(a1) /\ Len(a1) <= 39 THEN SetTop(m, Adv(PushV(a, VNum(N!VI("bigint", N!IntOfDec(a1)))))) ELSE OomM(m, "make_bigint " \o a1)
+      [] op = "make_byte" ->
+            IF AllDigits(a1) /\ Len(a1) <= 3 THEN SetTop(m, Adv(PushV(a, VNum(N!VI("byte", N!IntOfDec(a1)))))) ELSE OomM(m, "make_byte " \o a1)
+      [] op = "make_float" ->
+            LET f == FloatOfText(a1) IN
+            IF f.ok THEN SetTop(m, Adv(PushV(a, VNum(N!VF(f.f))))) ELSE OomM(m, "make_float " \o a1)
       [] op = "make_bool" -> SetTop(m, Adv(PushV(a, VBool(a1 = "true"))))
       [] op = "make_str" -> SetTop(m, Adv(PushV(a, VStr(a1))))
       [] op = "reserve_primitive" -> SetTop(m, Adv(PushV(a, VNil)))
@@ -196,8 +258,8 @@ Exec1(F, m) ==
       [] op = "pop" -> IF n = 0 THEN FailM(m, "machine") ELSE SetTop(m, Adv(PopV(a)))
       [] op = "printn" ->
             IF a1 # "*" THEN OomM(m, "printn index")
-            ELSE IF \E k \in 1..n : HasFn(m, a.ops[k], 3) THEN OomM(m, "print of a function")
-            ELSE [SetTop(m, Adv(a)) EXCEPT !.out = Append(@, JoinShown(m, a.ops, 1, "")), !.pr = @ \o [k \in 1..n |-> [text |-> ShowV(m, a.ops[k]), kind |-> KindName(Deref(m, a.ops[k]))]]]
+            ELSE IF \E k \in 1..n : Opaque(m, a.ops[k], 3) THEN OomM(m, "print of a value the machine does not show (function, object, module, list of boxed numbers)")
+            ELSE [SetTop(m, Adv(a)) EXCEPT !.out = Append(@, JoinShown(m, a.ops, 1, "")), !.pr = @ \o [k \in 1..n |-> [text |-> ShowV(m, a.ops[k]), kind |-> KindName(Deref(m, a.ops[k])), any |-> HasFloat(m, a.ops[k], 3)]]]
       [] op = "store" -> IF n # 1 THEN FailM(m, "machine") ELSE Register(SetTop(m, Adv(PopV(a))), a1, Deref(m, TopV(a)))
       [] op = "store_fast" -> IF n # 1 THEN FailM(m, "machine") ELSE BindLocal(SetTop(m, Adv(PopV(a))), a1, Deref(m, TopV(a)))
       [] op = "store_object" ->
@@ -227,6 +289,15 @@ Exec1(F, m) ==
       [] op = "bin_op" ->
             IF n < 2 THEN FailM(m, "machine")
             ELSE IF Fuzzy(Deref(m, a.ops[n - 1])) \/ Fuzzy(Deref(m, a.ops[n])) THEN OomM(m, "arithmetic on a position in an unordered list")
+            ELSE IF (Deref(m, a.ops[n - 1]).t = "num" /\ Deref(m, a.ops[n]).t \in {"num", "int"}) \/ (Deref(m, a.ops[n]).t = "num" /\ Deref(m, a.ops[n - 1]).t = "int") THEN
+                 (LET r == NumBin(a1, Deref(m, a.ops[n - 1]), Deref(m, a.ops[n])) IN
+                  IF r.ok THEN SetTop(m, Adv([a EXCEPT !.ops = <<OfNum(r.v)>>]))
+                  ELSE IF r.oom \/ r.why = "type" THEN OomM(m, "bin_op " \o a1 \o " on numbers outside the tower model")
+                  ELSE FailM(m, r.why))
+            ELSE IF a1 \in {"&", "|", "xor", "^", "<<", ">>"} /\ Deref(m, a.ops[n - 1]).t = "int" /\ Deref(m, a.ops[n]).t = "int" THEN
+                 (LET r == NumBin(a1, Deref(m, a.ops[n - 1]), Deref(m, a.ops[n])) IN      \* bit operators on int: through the tower as well
+                  IF r.ok THEN SetTop(m, Adv([a EXCEPT !.ops = <<OfNum(r.v)>>]))
+                  ELSE IF r.oom \/ r.why = "type" THEN OomM(m, "bin_op " \o a1 \o " outside the tower model") ELSE FailM(m, r.why))
             ELSE LET r == BinResult(m, a1, a.ops[n - 1], a.ops[n]) IN
                  IF r.st.status = "type" THEN OomM(m, "bin_op " \o a1 \o " on " \o Deref(m, a.ops[n - 1]).t \o "," \o Deref(m, a.ops[n]).t)
                  ELSE IF r.st.status # "ok" THEN FailM(m, r.st.status)
@@ -250,13 +321,21 @@ Exec1(F, m) ==
             ELSE IF Deref(m, a.ops[1]).t = "nil" \/ Deref(m, a.ops[2]).t = "nil" THEN      \* nil only equals nil
                  LET e == Deref(m, a.ops[1]).t = Deref(m, a.ops[2]).t IN
                  SetTop(m, Adv([a EXCEPT !.ops = <<VBool(IF op = "equ" THEN e ELSE ~e)>>]))
+            ELSE IF Deref(m, a.ops[1]).t = "num" \/ Deref(m, a.ops[2]).t = "num" THEN
+                 (IF Deref(m, a.ops[1]).t \notin {"num", "int"} \/ Deref(m, a.ops[2]).t \notin {"num", "int"} THEN OomM(m, "comparison of a number with " \o Deref(m, a.ops[1]).t \o "," \o Deref(m, a.ops[2]).t)
+                  ELSE LET r == NumBin("==", Deref(m, a.ops[1]), Deref(m, a.ops[2])) IN
+                       IF ~r.ok THEN OomM(m, "comparison of numbers outside the tower model")
+                       ELSE SetTop(m, Adv([a EXCEPT !.ops = <<VBool(IF op = "equ" THEN r.v.b ELSE ~r.v.b)>>])))
             ELSE IF HasFn(m, a.ops[1], 3) \/ HasFn(m, a.ops[2], 3) THEN OomM(m, "comparison of functions / objects")
             ELSE LET e == ValEq(Deref(m, a.ops[2]), Deref(m, a.ops[1]), HeapOf(m)) IN
                  SetTop(m, Adv([a EXCEPT !.ops = <<VBool(IF op = "equ" THEN e ELSE ~e)>>]))
       [] op = "neg" ->      \* the value is negated, not the slot it was read from
             IF n = 0 THEN FailM(m, "machine")
             ELSE LET v == Deref(m, TopV(a)) IN
-                 IF v.t # "int" THEN OomM(m, "neg of " \o v.t)
+                 IF v.t = "num" THEN
+                      (LET r == N!Negate(v.n) IN
+                       IF r.ok THEN SetTop(m, Adv([a EXCEPT !.ops[n] = OfNum(r.v)])) ELSE IF r.why = "type" THEN OomM(m, "neg of a byte") ELSE FailM(m, r.why))
+                 ELSE IF v.t # "int" THEN OomM(m, "neg of " \o v.t)
                  ELSE LET r == INeg(v.v) IN
                       IF r.fail # "" THEN FailM(m, r.fail) ELSE SetTop(m, Adv([a EXCEPT !.ops[n] = VInt(r.v)]))
       [] op = "not" ->
@@ -369,7 +448,8 @@ Exec1(F, m) ==
                  LET ixs == SubSeq(a1, 2, Len(a1) - 1)
                      c == IF IsDigits(ixs) THEN 0 ELSE Local(m, ixs)
                      ixv == IF IsDigits(ixs) THEN VInt(DigitsVal(ixs, Len(ixs))) ELSE IF c = 0 THEN VNil ELSE m.cells[c] IN
-                 IF n = 0 \/ ixv.t # "int" THEN FailM(m, "machine")
+                 IF ixv.t = "num" THEN OomM(m, "index of kind " \o ixv.n.kind)
+                 ELSE IF n = 0 \/ ixv.t # "int" THEN FailM(m, "machine")
                  ELSE LET x == Deref(m, TopV(a)) IN
                       IF ixv.v < 0 THEN FailM(m, "index")
                       ELSE IF x.t = "list" THEN
